@@ -122,7 +122,7 @@ def _c13_agree(model, impl):
 
 PROPS["C13"] = {
     "harness": {"kind": "overlay", "pkg": "pkg/p2p/libp2p", "pkgname": "libp2p",
-                "files": ["libp2p/c04_test.go", "libp2p/c13_test.go"], "test": "TestVerifC13"},
+                "files": ["libp2p/c04_test.go", "libp2p/timers_test.go", "libp2p/c13_test.go"], "test": "TestVerifC13"},
     "agree": _c13_agree,
     "level_text": "Theorems (byte level, for every payload up to the frame limit, every status code < 2^31 and message, every sequence of writes, any chunking since the reader consumes the concatenation): varint, length-delimited-field and google.rpc.Status round trips; a data envelope decodes as data with the same bytes and never as an error, an error envelope decodes as an error with the same code and message and never as data; readAll(concat(frames of writes)) = the written items in order; the empty envelope is rejected; an oversize length prefix is rejected. Tied to the real stream/metadataStream over an in-memory byte stream with adversarial chunkings: all message types of the protocols, all 17 status codes, sizes around varint boundaries and exactly at/below/above the 8 MiB limit, malformed envelopes, header maps (through the real metadataStream; protobuf library trusted for their content). Wire bytes produced by the Go code are compared with the model's encoder byte for byte.",
     "level_note": "Trusted: Lean kernel; harness; protobuf marshal/unmarshal of the inner messages and of structpb header maps; msgio. An error frame with code OK reads as success-without-data (outside the claim, modelled); envelopes with several occurrences of the oneof members follow protobuf merge rules (outside the model, only no-panic compared).",
@@ -256,7 +256,7 @@ PROPS["C09"] = {
 
 PROPS["C20"] = {
     "harness": {"kind": "overlay", "pkg": "pkg/p2p/libp2p", "pkgname": "libp2p",
-                "files": ["libp2p/c17_test.go", "libp2p/c04_test.go", "libp2p/c20_test.go"], "test": "TestVerifC20"},
+                "files": ["libp2p/c17_test.go", "libp2p/c04_test.go", "libp2p/timers_test.go", "libp2p/c20_test.go"], "test": "TestVerifC20"},
     "level_text": "Theorem over all interleavings of the two nodes' steps (asynchronous reliable channel; initiator: write final message, return from Connect, open stream; responder: read+verify final message, register, clear the in-flight marker; responder's stream wrapper: look the peer up, wait for an in-flight handshake of that peer, look again): an invariant (marker cleared implies peer registered) gives that a stream opened after a successful connect is never refused as coming from an unknown peer, however late the responder registers, and a waiting stream is accepted once the responder finished; the wrapper that does not wait (the pinned tree) is refuted by a kernel-evaluated 4-step schedule. Tied to two real services on loopback: the responder's KeySigner.GetAddress (called between reading the final message and registering) is a gate held for chosen delays while the initiator opens 1-3 streams right after Connect returned; plus ungated runs with natural relative speeds and several role pairs.",
     "level_note": "Trusted: Lean kernel; harness; real sockets, libp2p stream negotiation and the Go scheduler are sampled, not modelled (partial): the model's steps are the protocol-level events only. Honest initiator (its final message verifies) is the scope of the statement.",
     "nontrivial_rule": "distinct (tag, delay, streams, role pair) cells",
